@@ -65,7 +65,7 @@ def valid_dtd(c):
 
 # ------------------------------------------------------------------ cores
 def gen_sites(rng, tier):
-    for c in contents(rng, n_cases(tier, 400, 20000)):
+    for c in contents(rng, n_cases(tier, 400, 8000)):
         if not valid_dtd(c):
             continue
         try:
@@ -116,7 +116,7 @@ def field_shapes(cls):
 
 
 def gen_fields(rng, tier):
-    for c in contents(rng, n_cases(tier, 60, 3000)):
+    for c in contents(rng, n_cases(tier, 60, 800)):
         if not valid_dtd(c):
             continue
         try:
@@ -301,7 +301,7 @@ def gen_docs(rng, tier):
     for c, words in HAND_DOCS:
         if valid_dtd(c):
             yield {"content": c, "words": words, "attrs": [], "ns": None}
-    for c in contents(rng, n_cases(tier, 50, 2500)):
+    for c in contents(rng, n_cases(tier, 50, 100000)):
         if not valid_dtd(c):
             continue
         p = G.dtd_particle(c)
@@ -382,7 +382,7 @@ def gen_e2e(rng, tier):
         ({"k": "seq", "o": "opt", "c": [E("a"), E("b")]}, [[], ["a", "b"]]),
     ]:
         yield {"content": c, "words": words, "attrs": [], "ns": None}
-    for i in range(n_cases(tier, 40, 2000)):
+    for i in range(n_cases(tier, 40, 1200)):
         # inside the property's own restriction, and arbitrary nesting of indicators (distinct names)
         c = gen_restricted(rng) if i % 2 == 0 else G.gen_dtd_content(rng, distinct=["a", "b", "c", "d", "e", "f", "g"])
         if c is None or "n" in c or not valid_dtd(c):
